@@ -56,7 +56,18 @@ pub fn run_helper(bin: &Path, home: &Path, args: &[String], stdin: &[u8]) -> Hel
     let mut si = child.stdin.take().unwrap();
     let data = stdin.to_vec();
     // write from a thread: the helper reads all of stdin before answering, but be safe against pipe limits
-    let w = std::thread::spawn(move || { let _ = si.write_all(&data); drop(si); });
+    // every 5th call the payload arrives in two pieces — 1, 2 or 3 bytes, a pause, then the rest — as it may over a real SSH
+    // channel (seeded change C14b: magic sniffing on whatever the first read returns)
+    static CALLS: std::sync::atomic::AtomicUsize = std::sync::atomic::AtomicUsize::new(0);
+    let n = CALLS.fetch_add(1, std::sync::atomic::Ordering::Relaxed);
+    let split = if n % 5 == 4 && data.len() > 4 { Some(1 + (n / 5) % 3) } else { None };
+    let w = std::thread::spawn(move || {
+        match split {
+            Some(k) => { let _ = si.write_all(&data[..k]); let _ = si.flush(); std::thread::sleep(std::time::Duration::from_millis(40)); let _ = si.write_all(&data[k..]); }
+            None => { let _ = si.write_all(&data); }
+        }
+        drop(si);
+    });
     let out = child.wait_with_output().expect("wait sy-remote");
     let _ = w.join();
     HelperOut { ok: out.status.success(), stdout: String::from_utf8_lossy(&out.stdout).into_owned(), stderr: String::from_utf8_lossy(&out.stderr).into_owned() }
